@@ -97,8 +97,8 @@ class VisitDataframeDataReader(AbstractDataframeDataReader):
         # Check and clean visit times
         self._check_TIME(df.set_index("ID")["TIME"])
         df["TIME"] = round(
-            df["TIME"], self.time_rounding_digits
-        )  # avoid missing duplicates due to rounding errors
+            df["TIME"].astype(float), self.time_rounding_digits
+        )  # avoid missing duplicates due to rounding errors (in double precision whatever the input dtype)
 
         # Set index and make sure it is unique
         df.set_index(["ID", "TIME"], inplace=True)
